@@ -56,3 +56,18 @@ pub fn c09_any_changed_proof_fails(pop: &ProofOfPossession, pop2: &ProofOfPosses
     }
     assert(!(v1 is Ok && v2 is Ok));
 }
+
+/// a proof that arrives as bytes: the honest encoding decodes to the proof itself, and whatever the decoder
+/// accepts is the canonical encoding of a group element — so an altered byte string is either refused or is
+/// another proof, which c09_any_changed_proof_fails rejects (a point outside the prime-order group, which the
+/// pairing equation cannot see, is never handed to `verify`)
+pub fn c09_proof_through_bytes(pop: &ProofOfPossession, other: &[u8])
+{
+    let v = Vec::from(pop);
+    assert(v@.len() == sig_len());
+    let r = ProofOfPossession::try_from(v.as_slice());
+    assert(r is Ok && r->Ok_0.0 == pop.0);
+    let q = ProofOfPossession::try_from(other);
+    assert(q is Ok ==> sig_valid_enc(other@) && q->Ok_0.0 == sig_dec(other@) && sig_enc(q->Ok_0.0) == other@);
+    assert(q is Ok && other@ != v@ ==> q->Ok_0.0 != pop.0);
+}
